@@ -586,7 +586,7 @@ def poll(ctx: Ctx, rule: str) -> None:
     f = ctx.func(f"{C.INMEM_CONS}.consume")
     g = ctx.cfg(f)
     upd = [n for n in g.calls() if (n.callee or "").endswith("__update_delayed")]
-    takes = [n for n in g.calls() if any(cal.name.startswith("__consume_") for cal in ctx.res.callees(f, n.ast))]
+    takes = [n for n in g.calls() if any(cal.name in ("__consume_normal", "__consume_delayed", "__consume_dead") for cal in ctx.res.callees(f, n.ast))]
     ctx.require(bool(takes), f"{f.qualname}: take call (_consume_fn()) not found")
     ctx.check(bool(upd) and flow.must_pass(g, g.entry.id, [t.id for t in takes], [u.id for u in upd], flow.NORMAL_KINDS), rule, f,
               "delayed refresh before the first take", "due messages are moved before looking at the waiting queue",
